@@ -93,8 +93,8 @@ def jobs(tier):
     langs = ['java', 'kotlin'] if tier == 'quick' else U.LANGS
     for lang in langs:
         for unit in ['gen_variable', 'gen_assignment', 'gen_conditional', 'gen_new', 'gen_variable_decl', 'generate_expr', 'gen_field_access',
-             'gen_func_call']:
-            extra = dict(nvars=0, with_nested=False) if unit in ('generate_expr', 'gen_func_call', 'gen_field_access') \
+             'gen_func_call', 'gen_lambda', 'gen_is_expr']:
+            extra = dict(nvars=0, with_nested=False) if unit in ('generate_expr', 'gen_func_call', 'gen_field_access', 'gen_lambda') \
                 else dict(nvars=1, with_nested=(tier != 'quick'))
             if unit == 'gen_func_call':
                 extra['sym_draws'] = 3 if tier == 'quick' else 5
